@@ -441,6 +441,15 @@ func mangleType(t types.Type) string {
 
 // sortOf maps a Go type to an SMT sort, declaring struct datatypes on demand.
 func (b *Builder) sortOf(t types.Type) string {
+	if tp, ok := t.(*types.TypeParam); ok {
+		// a value of type parameter S with the constraint ~[]E is a slice (the bodies of instantiation wrappers of
+		// generic library functions are typed over the parameters)
+		if ct := coreOfTypeParam(tp); ct != nil {
+			if _, isParam := ct.(*types.TypeParam); !isParam {
+				return b.sortOf(ct)
+			}
+		}
+	}
 	switch u := t.Underlying().(type) {
 	case *types.Basic:
 		switch {
@@ -791,4 +800,51 @@ func (b *Builder) impliedNamesIfEnabled(extra []string) []string {
 		return nil
 	}
 	return b.impliedNames(extra)
+}
+
+// coreOfTypeParam: the single underlying type all terms of the constraint agree on, nil when there is none.
+func coreOfTypeParam(tp *types.TypeParam) types.Type {
+	iface, ok := tp.Constraint().Underlying().(*types.Interface)
+	if !ok {
+		return nil
+	}
+	var core types.Type
+	for i := 0; i < iface.NumEmbeddeds(); i++ {
+		var terms []types.Type
+		switch e := iface.EmbeddedType(i).(type) {
+		case *types.Union:
+			for k := 0; k < e.Len(); k++ {
+				terms = append(terms, e.Term(k).Type())
+			}
+		default:
+			terms = append(terms, e)
+		}
+		for _, tt := range terms {
+			u := tt.Underlying()
+			if _, isIface := u.(*types.Interface); isIface {
+				continue
+			}
+			if core == nil {
+				core = u
+			} else if !sameKind(core, u) {
+				return nil
+			}
+		}
+	}
+	return core
+}
+
+func sameKind(a, b types.Type) bool {
+	switch a.(type) {
+	case *types.Slice:
+		_, ok := b.(*types.Slice)
+		return ok
+	case *types.Map:
+		_, ok := b.(*types.Map)
+		return ok
+	case *types.Pointer:
+		_, ok := b.(*types.Pointer)
+		return ok
+	}
+	return types.Identical(a, b)
 }
